@@ -6,13 +6,15 @@ Executable model of `convolve/monochromatic.py:convolve_model_dir_monochromatic`
 
 ```
 chunk_size = min(n_wav, int(np.floor(max_ram * 1024. ** 3 / (4. * 2. * n_models * n_ap))))
-jlo = n_wav - 1 - (wavelengths[::-1].searchsorted(wav_max) - 1)
+filters['filter'] = np.zeros(wavelengths.shape, dtype='S10')
+jlo = n_wav - 1 - (wavelengths[::-1].searchsorted(wav_max, side='right') - 1)
 jhi = n_wav - 1 - wavelengths[::-1].searchsorted(wav_min)
-chunk_size = min(chunk_size, jhi - jlo + 1)
+chunk_size = max(1, min(chunk_size, jhi - jlo + 1))
 for jmin in range(jlo, jhi + 1, chunk_size):
     jmax = min(jmin + chunk_size - 1, jhi)
     n_chunk = jmax - jmin + 1
-    ... for j in range(n_chunk): file MO%03d % (j + jmin + 1)
+    ... for j in range(n_chunk): file MO%03d % (j + jmin + 1); filters['filter'][j + jmin] = "MO%03d" % (j + jmin + 1)
+return filters
 ```
 
 of `ConvolvedFluxes.sort_to_match` (`argsort(a)[argsort(argsort(ref))]` followed by the code's own
@@ -30,6 +32,7 @@ inductive Err
   | indexError   -- IndexError
   | sortFailed   -- Exception("Sorting failed")
   | emptyArgmin  -- ValueError: attempt to get argmin of an empty sequence
+  | noSeds       -- Exception("No SEDs found in …")
   deriving DecidableEq, Repr
 
 /-! ## window → index range -/
@@ -37,13 +40,16 @@ inductive Err
 /-- `l.searchsorted(x)` (side `left`) on a sorted array: the first index whose element is not `< x` -/
 def ssLeft (l : List K) (x : K) : Nat := (l.takeWhile (fun w => decide (w < x))).length
 
+/-- `l.searchsorted(x, side='right')` on a sorted array: the first index whose element is `> x` -/
+def ssRight (l : List K) (x : K) : Nat := (l.takeWhile (fun w => decide (¬ x < w))).length
+
 /-- `(jlo, jhi)`; `none` is the default `∓inf` end -/
 def windowIdx (ws : List K) (wmin wmax : Option K) : Int × Int :=
   let n : Int := ws.length
   let rev := ws.reverse
   let cmax : Int := match wmax with
-    | none => rev.length          -- searchsorted(+inf)
-    | some x => ssLeft rev x
+    | none => rev.length          -- searchsorted(+inf, side='right')
+    | some x => ssRight rev x
   let cmin : Int := match wmin with
     | none => 0                   -- searchsorted(-inf)
     | some x => ssLeft rev x
@@ -55,9 +61,9 @@ def windowIdx (ws : List K) (wmin wmax : Option K) : Int × Int :=
 def ramFloor (maxRam : Rat) (nModels nAp : Nat) : Int :=
   (maxRam * 1024 ^ 3 / (4 * 2 * (nModels : Rat) * (nAp : Rat))).floor
 
-/-- the two `min`s -/
+/-- the two `min`s and the `max(1, …)` -/
 def chunkSize (nWav : Nat) (ramFl : Int) (jlo jhi : Int) : Int :=
-  min (min (nWav : Int) ramFl) (jhi - jlo + 1)
+  max 1 (min (min (nWav : Int) ramFl) (jhi - jlo + 1))
 
 /-- `for jmin in range(jlo, jhi + 1, size)` with `size > 0`: the `(jmin, jmax)` of every pass -/
 def chunkLoop (size jhi : Int) : Nat → Int → List (Int × Int)
@@ -189,6 +195,43 @@ def monoRows {N : Type} [LT N] [DecidableLT N] [DecidableEq N] (strip trunc : N 
   match emitted jlo jhi size with
   | .error e => .error e
   | .ok js => monoFilesAt strip trunc ws aps seds ref js
+
+/-! ## the returned table and the whole call -/
+
+/-- `"MO{0:03d}".format(j + 1)` -/
+def moName (j : Nat) : String :=
+  let d := toString (j + 1)
+  "MO" ++ String.ofList (List.replicate (3 - d.length) '0') ++ d
+
+/-- `filters['filter'] = zeros(n, 'S10')`, then `filters['filter'][j] = "MOnnn"` for every emitted `j`, in the
+    order written -/
+def fillTable (names : List String) : List Int → List String
+  | [] => names
+  | j :: js => fillTable (if j < 0 then names else names.set j.toNat (moName j.toNat)) js
+
+/-- the `filter` column of the returned table (the `wav` column is `ws`) -/
+def monoTable (n : Nat) (js : List Int) : List String := fillTable (List.replicate n "") js
+
+/-- what one call leaves behind: the files written (in order) and the returned table -/
+structure MonoResult (N K : Type) where
+  files : List (MonoFile N K)
+  tableWav : List K
+  tableFilter : List String
+
+/-- `convolve_model_dir_monochromatic(model_dir, max_ram=, wav_min=, wav_max=)`:
+    window → index range, memory limit → chunk size, chunk loop, files, table -/
+def monoRun {N : Type} [LT N] [DecidableLT N] [DecidableEq N] (strip trunc : N → N)
+    (ws aps : List K) (seds : List (SedIn N K)) (ref : List N) (wmin wmax : Option K) (maxRam : Rat) :
+    Except Err (MonoResult N K) :=
+  if seds.isEmpty then .error .noSeds else
+  let w := windowIdx ws wmin wmax
+  let size := chunkSize ws.length (ramFloor maxRam seds.length aps.length) w.1 w.2
+  match emitted w.1 w.2 size with
+  | .error e => .error e
+  | .ok js =>
+    match monoFilesAt strip trunc ws aps seds ref js with
+    | .error e => .error e
+    | .ok fs => .ok { files := fs, tableWav := ws, tableFilter := monoTable ws.length js }
 
 /-! ## nearest tabulated wavelength -/
 
